@@ -275,6 +275,66 @@ def _mask_case(args):
     return cnt, out
 
 
+def _history_case(args):
+    """A long-lived dataset whose filter changes between calls: every entry
+    point under mask A, then under mask B (and with filters disabled), must
+    equal a fresh dataset of the events selected by B."""
+    lo, hi, seed = args
+    from dclab import statistics
+    out = []
+    cnt = 0
+    n = 10
+    x, y = base_data(n, seed + 5)
+    fam = [np.ones(n, bool), np.arange(n) % 2 == 0, np.arange(n) < 6,
+           np.arange(n) >= 4, np.array([1, 1, 0, 1, 0, 1, 1, 1, 0, 1], bool),
+           np.arange(n) % 3 != 0]
+    pairs = list(itertools.permutations(range(len(fam)), 2))
+    pairs += [(a, "off") for a in range(len(fam))]
+
+    def calls(ds):
+        res = {}
+        h, v = statistics.get_statistics(ds, features=["area_um", "deform"])
+        res["stats"] = tuple(v)
+        for kt in ("histogram", "gauss", "multivariate"):
+            res[f"scatter-{kt}"] = call(ds.get_kde_scatter, kde_type=kt)
+            res[f"contour-{kt}"] = call(ds.get_kde_contour, kde_type=kt)
+        res["contour-log"] = call(ds.get_kde_contour, xscale="log",
+                                  yscale="log")
+        res["contour-acc"] = call(ds.get_kde_contour, xacc=7.0, yacc=0.01)
+        res["down"] = call(ds.get_downsampled_scatter, downsample=3)
+        return res
+    for a, b in pairs[lo:hi]:
+        cnt += 1
+        ds = _new(x, y)
+        ds.filter.manual[:] = fam[a]
+        ds.apply_filter()
+        calls(ds)
+        if b == "off":
+            ds.config["filtering"]["enable filters"] = False
+            sel = np.arange(n)
+        else:
+            ds.filter.manual[:] = fam[b]
+            sel = np.flatnonzero(fam[b])
+        ds.apply_filter()
+        got = calls(ds)
+        ref = calls(_new(x[sel], y[sel]))
+        for k in got:
+            if k == "stats":
+                # Events / %-gated refer to the filter, compare the rest
+                ok = all(eq(p, q) for p, q in zip(got[k][2:], ref[k][2:]))
+            else:
+                ok = eq(got[k], ref[k])
+            if not ok:
+                out.append(violation(
+                    "dclab.rtdc_dataset.core:RTDCBase", "depends-on-"
+                    "earlier-filter", {"kind": "history", "a": a,
+                                       "b": b, "seed": seed},
+                    f"{k}: after mask {a} then {b} the result differs "
+                    f"from a fresh dataset of the selected events",
+                    {"entry": k.split("-")[0]}))
+    return cnt, out
+
+
 def _quantile_case(args):
     """The level reported for quantile q leaves the fraction q below it."""
     seed, = args
@@ -320,6 +380,8 @@ def run(ctx):
                   for lo in range(0, 64, 4)]
     res = par.pmap(_mask_case, items)
     res += par.pmap(_quantile_case, [(ctx.seed,)])
+    res += par.pmap(_history_case, [(lo, lo + 3, ctx.seed)
+                                    for lo in range(0, 36, 3)])
     viols = []
     cnt = 0
     for c, vs in res:
@@ -347,6 +409,12 @@ def run(ctx):
 
 
 def replay(case, ctx):
+    if case["kind"] == "history":
+        vs = []
+        for lo in range(0, 36, 3):
+            vs += _history_case((lo, lo + 3, case["seed"]))[1]
+        return [v for v in vs if v["case"]["a"] == case["a"]
+                and v["case"]["b"] == case["b"]]
     if case["kind"] == "quantile":
         _, vs = _quantile_case((case["seed"],))
         return vs
